@@ -37,6 +37,7 @@ THEOREMS = [
     "Opacus.C11.module_zero_grad_then_step_raises",
     "Opacus.C11.ghost_double_release_counterexample",
     "Opacus.C11.ghost_no_double_release_partial",
+    "Opacus.C11.accumulated_kept",
 ]
 RULE = (
     "case = (optimizer kind std|ghost, accumulation allowed?, accountant rdp|gdp, op sequence over {fwdbwd n, step, optimizer.zero_grad, "
